@@ -148,6 +148,67 @@ fn inputs(ctx: &mut Ctx) -> Vec<(String, Vec<u8>)> {
         b.extend_from_slice(&[119, 1, 109, 97, 1, 97, 2, 88, 119, 1, 110, 0, 0, 0, 1, 0, 0, 0, 2, 0, 0, 0, 3]);
         v.push(("numfree".into(), b));
     }
+    // the same with the fun's Size field varied as well (Size and NumFree both come from the sender)
+    for size in [0u32, 1, 60, 1 << 20, 1 << 31, u32::MAX] {
+        for nf in [1000u32, 1 << 20, 1 << 31, u32::MAX] {
+            let mut b = vec![131u8, 112];
+            b.extend_from_slice(&size.to_be_bytes());
+            b.push(1);
+            b.extend_from_slice(&[7u8; 16]);
+            b.extend_from_slice(&[0, 0, 0, 1]);
+            b.extend_from_slice(&nf.to_be_bytes());
+            b.extend_from_slice(&[119, 1, 109, 97, 1, 97, 2, 88, 119, 1, 110, 0, 0, 0, 1, 0, 0, 0, 2, 0, 0, 0, 3]);
+            v.push(("numfree-size".into(), b));
+        }
+    }
+    // field blast: compact valid encodings of every tag that carries a length, count or size, with the four bytes at
+    // every offset — and at every PAIR of offsets, for bounds that are the minimum of two wire-supplied numbers — replaced by
+    // huge values; whatever a parser reads there before it allocates, it has been handed a number far beyond the input
+    {
+        let fun: Vec<u8> = {
+            let mut b = vec![112u8, 0, 0, 0, 60, 1];
+            b.extend_from_slice(&[7u8; 16]);
+            b.extend_from_slice(&[0, 0, 0, 1, 0, 0, 0, 1]);
+            b.extend_from_slice(&[119, 1, 109, 97, 1, 97, 2, 88, 119, 1, 110, 0, 0, 0, 1, 0, 0, 0, 2, 0, 0, 0, 3, 97, 9]);
+            b
+        };
+        let seeds: Vec<Vec<u8>> = vec![
+            fun,
+            vec![108, 0, 0, 0, 2, 97, 1, 97, 2, 106],                              // LIST_EXT
+            vec![105, 0, 0, 0, 2, 97, 1, 97, 2],                                   // LARGE_TUPLE_EXT
+            vec![116, 0, 0, 0, 1, 97, 1, 97, 2],                                   // MAP_EXT
+            vec![109, 0, 0, 0, 3, 1, 2, 3],                                        // BINARY_EXT
+            vec![77, 0, 0, 0, 2, 3, 1, 2],                                         // BIT_BINARY_EXT
+            vec![107, 0, 2, 65, 66],                                               // STRING_EXT
+            vec![111, 0, 0, 0, 2, 0, 1, 2],                                        // LARGE_BIG_EXT
+            vec![90, 0, 2, 119, 1, 110, 0, 0, 0, 1, 0, 0, 0, 5, 0, 0, 0, 6],       // NEWER_REFERENCE_EXT
+            vec![114, 0, 2, 119, 1, 110, 1, 0, 0, 0, 5, 0, 0, 0, 6],               // NEW_REFERENCE_EXT
+            vec![118, 0, 2, 111, 107],                                             // ATOM_UTF8_EXT
+            vec![100, 0, 2, 111, 107],                                             // ATOM_EXT
+            vec![113, 119, 1, 109, 119, 1, 102, 97, 2],                            // EXPORT_EXT
+            vec![68, 2, 0x88, 0, 0, 2, 111, 107, 1, 1, 120, 104, 2, 82, 0, 82, 1], // distribution header with two new entries
+            vec![69, 0, 0, 0, 0, 0, 0, 0, 9, 0, 0, 0, 0, 0, 0, 0, 1, 1, 0x08, 0, 2, 111, 107, 104, 1, 82, 0], // fragment header
+        ];
+        for sd in &seeds {
+            let l = sd.len();
+            for i in 0..l {
+                for j in i..l {
+                    for val in [u32::MAX, 1_000_000u32] {
+                        let mut b = vec![131u8];
+                        b.extend_from_slice(sd);
+                        for k in [i, j] {
+                            for (o, byte) in val.to_be_bytes().iter().enumerate() {
+                                if 1 + k + o < b.len() {
+                                    b[1 + k + o] = *byte;
+                                }
+                            }
+                        }
+                        v.push(("field-blast".into(), b));
+                    }
+                }
+            }
+        }
+    }
     // nesting towers through every container tag
     let depths: Vec<usize> = if ctx.thorough { vec![10, 100, 255, 256, 257, 258, 600, 3000, 20_000, 200_000, 1_000_000] } else { vec![10, 255, 256, 257, 258, 600, 3000, 20_000, 100_000] };
     for &d in &depths {
